@@ -279,6 +279,15 @@ def common_leanchecker(prop):
         raise common.Infra(f"leanchecker: {e}")
     if p.returncode != 0:
         return "leanchecker rejected Xo.Props." + prop + ": " + (p.stdout + p.stderr)[-400:]
+    # ... and the source-tie modules this property has obligations in
+    mods = sorted(m for m, spec in common.gen_obligations().items() if any(prop in ps for ps in spec["theorems"].values()))
+    for m in mods:
+        try:
+            q = subprocess.run(["lake", "env", "leanchecker", m], cwd=common.LEAN, capture_output=True, text=True, timeout=1800)
+        except Exception as e:
+            raise common.Infra(f"leanchecker: {e}")
+        if q.returncode != 0:
+            return "leanchecker rejected " + m + ": " + (q.stdout + q.stderr)[-400:]
     return None
 
 
